@@ -22,7 +22,7 @@ RULE = ("bodies of boundary lengths (0, 1, 243..245, 487..489, k*244+-1, random 
         "and of a block whose checksum is 0x0081 (enumerated); 1-3 bytes altered at once with the checksum forced to 0000 / FFFF / "
         "swapped / one byte zero / sum of data only (judged by the reference parser); system bytes reused after a completed message; "
         "two protocol objects fed multi-block messages with the same system bytes (interleaved, or abandoned and repeated); "
-        "distinct by (oracle, header fields, body hash | corruption position and mask); all are non-trivial; plus: rounds with 33-70 multi-block messages open at the same moment; a slow sender whose gaps between blocks stay below a short T4 while the whole transfer of 3-6 blocks takes longer than T4")
+        "distinct by (oracle, header fields, body hash | corruption position and mask); all are non-trivial; plus: rounds with 33-70 multi-block messages open at the same moment; a slow sender whose gaps between blocks stay below a short T4 while the whole transfer of 4-6 blocks takes longer than T4")
 ASSUMPTIONS = ["lib/wire.py implements the SEMI E4 block layout and checksum", "corruption of the length byte is outside the "
                "statement and only required not to yield an accepted block", "reassembly is fed in order within a message"]
 LEVEL_TEXT = ("Fault enumeration: every single-byte corruption (position x mask set) of four block sizes is applied to the "
@@ -300,16 +300,16 @@ def _slow_sender(ctx, rounds):
 
     rng = ctx.rng
     for r in range(rounds):
-        t4 = 0.3
+        t4 = 1.0      # (margin of 0.55 s between a gap and T4: a loaded machine does not turn a legal gap into an illegal one)
         rig = SecsIRig(device_type=secsgem.common.DeviceType.EQUIPMENT, t4=t4)
         try:
-            nblocks = rng.randint(3, 6)
+            nblocks = rng.randint(4, 6)
             body = rng.randbytes(244 * (nblocks - 1) + rng.randint(1, 244))
             h = dict(device_id=rng.randint(0, 0x7FFF), rbit=False, stream=rng.choice([1, 2, 6, 7]), wbit=False, function=rng.choice([1, 3, 5, 11]),
                      system=rng.getrandbits(32))
             blocks = [wire.secs1_block(wire.secs1_header(**rf), d) for rf, d in
                       wire.secs1_split(h["device_id"], h["rbit"], h["stream"], h["wbit"], h["function"], h["system"], body)]
-            gap = 0.6 * t4
+            gap = 0.45 * t4
             t0 = time.monotonic()
             ok = True
             for bi, raw in enumerate(blocks):
@@ -317,7 +317,7 @@ def _slow_sender(ctx, rounds):
                     time.sleep(gap)
                 trace, answer = rig.send_block_to_sut(raw, None)
                 if answer != wire.ACK:
-                    ctx.violation("valid-block-not-acknowledged", {"trace": trace, "block_index": bi, "sender": "slow: gaps of 0.6 x T4"})
+                    ctx.violation("valid-block-not-acknowledged", {"trace": trace, "block_index": bi, "sender": "slow: gaps of 0.45 x T4"})
                     ok = False
                     break
             took = time.monotonic() - t0
